@@ -31,9 +31,15 @@ Definition check_int (mv : bool) (v : option N) (srcs : list (list ascii)) (dst 
           else if r_ambiguous r then 2%N
           else if (length pairs <=? 4)%nat
                then (if existsb try_order (permutations pairs) then 1%N else 0%N)
-               else if bool_decide (fst (int_apply_order mv vn pairs (r_errors r) pre)
+               else
+                 (* more than 4 pairs: all orders are not enumerated.  A disagreement is reported only when the
+                    result cannot depend on the order: copies none of which is refused in the listed order (the
+                    destinations are then pairwise compatible with each other and with the state, so every order
+                    adds the same entries).  Moves and partly refused copies are order-sensitive in general. *)
+                 if negb mv && rclass_eqb (snd (int_apply_order mv vn pairs O pre)) ROk
+                    && bool_decide (fst (int_apply_order mv vn pairs (r_errors r) pre)
                                     = fst (int_apply_order mv vn (rev pairs) (r_errors r) pre))
-                    then 0%N else 2%N
+                 then 0%N else 2%N
       end
   end.
 
